@@ -134,7 +134,12 @@ def check_mt_contract(res, pid, src, over, has_migrate, has_reply, replies_featu
                                pid, MT_FN[k], got, [k] if k in over else [], sorted(over))})
             continue
         if k in over:
-            if ("from_json::<crate::ovr::%sMsgX>(&msg)" % k.capitalize()) not in body:
+            # the chain hands reply over already decoded; every other kind arrives as bytes
+            if k == "reply":
+                decodes = "msg)" in body and "from_json" not in body
+            else:
+                decodes = ("from_json::<crate::ovr::%sMsgX>(&msg)" % k.capitalize()) in body
+            if not decodes:
                 res.violation({"kind": "mt_override_msg", "pid": pid, "program": src,
                                "what": "%s: multitest `%s` does not decode the override's message type: %s" % (pid, MT_FN[k], f.get("body"))})
         else:
